@@ -1,12 +1,15 @@
 //! C05 — a NAK is charged once, and only to a link that carried the packet.
 use crate::props::acct::{self, Which};
+use crate::props::decide;
 use crate::rt::Ctx;
 
 pub fn run(ctx: &Ctx) -> &'static str {
     ctx.assume("ownership model: last unique routing per slot (seq mod 16384), valid for 5000 ms inclusive, purged when its link is removed by a reload; written independently of SequenceTracker");
-    ctx.assume("probe copies are queued the way send_stall_probes does it (queue_data_packet without a tracker entry)");
+    ctx.assume("[history] probe copies are queued the way send_stall_probes does it (queue_data_packet without a tracker entry); [real-routing] they are made by the real send_stall_probes inside handle_srt_packet");
     for (file, body) in ctx.replay_files() {
-        if !ctx.replay_case::<acct::Case, _>("history", &file, &body, |c, o| acct::check(c, o, Which::C05)) {
+        if !ctx.replay_case::<acct::Case, _>("history", &file, &body, |c, o| acct::check(c, o, Which::C05))
+            && !ctx.replay_case::<decide::Case, _>("real-routing", &file, &body, |c, o| decide::check(c, o, decide::Which::C05, ctx))
+        {
             eprintln!("replay {}: unknown part", file.display());
         }
     }
@@ -20,6 +23,14 @@ pub fn run(ctx: &Ctx) -> &'static str {
         ctx.tier.pick(100_000, 1_000_000),
         || acct::strategy(Which::C05, max_ops),
         |_| |c: &acct::Case, o: &mut crate::rt::Obs| acct::check(c, o, Which::C05),
+    );
+    let mo = ctx.tier.pick(50, 100);
+    ctx.explore(
+        "real-routing",
+        "the C04 decision engine (real handle_srt_packet with the real send_stall_probes and tracker insert, link states produced by real packets, housekeeping and clock steps): whenever a datagram was duplicated onto a stall-gated link it is flushed and NAKed at once (arrival on the gated link, the carrier or a third link), then NAKed again; the first NAK may charge only the link that carried the unique copy, the repeat nothing; non-trivial = such a NAK happened",
+        ctx.tier.pick(40_000, 400_000),
+        || decide::strategy(mo),
+        |_| |c: &decide::Case, o: &mut crate::rt::Obs| decide::check(c, o, decide::Which::C05, ctx),
     );
     "exploration"
 }
